@@ -212,6 +212,19 @@ func checkParser(c ParserCase, o *vf.Obs) error {
 	if len(c.Body) > 0 && len(c.Body) < 400 {
 		note("body", fmt.Sprintf("%q", c.Body))
 	}
+	// randString(N) and friends: probe absurd numbers with 1e8 first (4 bytes per rune: survivable, above the ceiling)
+	if probe, ok := canaryWith(c.In, "100000000"); ok {
+		pc := c
+		pc.In = probe
+		if err := judge(note, len(c.In)+len(c.Body), allocCeiling, func() error {
+			return bounded(c.Target, func(_ context.Context) error { return parserBody(pc, nil) })
+		}); err != nil {
+			if v, ok := err.(*violation); ok {
+				v.msg = "with every number of >= 9 digits replaced by 100000000: " + v.msg
+			}
+			return err
+		}
+	}
 	return judge(note, len(c.In)+len(c.Body), allocCeiling, func() error {
 		return bounded(c.Target, func(_ context.Context) error { return parserBody(c, o) })
 	})
